@@ -341,3 +341,112 @@ def f(x):
     if x < 0 or x >= 0xffffffff:
         raise ValueError(x)
 """
+
+
+# ---------------------------------------------------------------------------------------------------
+# structural path conditions and local un-aliasing (shape rules that survive guard clauses / named locals)
+
+def _always_leaves(stmts):
+    """Does this statement list end control flow of the function (return / raise) on every path?"""
+    for st in stmts:
+        if isinstance(st, (ast.Return, ast.Raise)):
+            return True
+        if isinstance(st, ast.If) and st.orelse and _always_leaves(st.body) and _always_leaves(st.orelse):
+            return True
+    return False
+
+
+def conds_at(func_node, target):
+    """[(test expression, truth)] known when control reaches `target`: tests of enclosing if/else arms and
+    of earlier sibling guard clauses (`if T: return/raise` => not T afterwards)."""
+    out = []
+
+    def walk(stmts, acc):
+        acc = list(acc)
+        for st in stmts:
+            if any(x is target for x in ast.walk(st)):
+                if isinstance(st, ast.If):
+                    if any(x is target for x in ast.walk(st.test)):
+                        return acc
+                    if any(x is target for b in st.body for x in ast.walk(b)):
+                        return walk(st.body, acc + [(st.test, True)])
+                    return walk(st.orelse, acc + [(st.test, False)])
+                for fld in ('body', 'orelse', 'finalbody'):
+                    blk = getattr(st, fld, None)
+                    if isinstance(blk, list) and any(x is target for b in blk for x in ast.walk(b)):
+                        return walk(blk, acc)
+                for h in getattr(st, 'handlers', []) or []:
+                    if any(x is target for b in h.body for x in ast.walk(b)):
+                        return walk(h.body, acc)
+                return acc
+            if isinstance(st, ast.If):
+                if _always_leaves(st.body) and not st.orelse:
+                    acc.append((st.test, False))
+                elif st.orelse and _always_leaves(st.orelse) and not _always_leaves(st.body):
+                    acc.append((st.test, True))
+        return acc
+    body = func_node.body if hasattr(func_node, 'body') else []
+    return walk(body, out)
+
+
+def holds(conds, pred):
+    """Is a condition matching `pred(expr)` known to hold?  `not X` known false counts as X true."""
+    for t, truth in conds:
+        e, v = t, truth
+        while isinstance(e, ast.UnaryOp) and isinstance(e.op, ast.Not):
+            e, v = e.operand, not v
+        if v and pred(e):
+            return True
+        if v and isinstance(e, ast.BoolOp) and isinstance(e.op, ast.And) and any(pred(x) for x in e.values):
+            return True
+        if not v and isinstance(e, ast.BoolOp) and isinstance(e.op, ast.Or):
+            # not (A or B) => not A and not B
+            for x in e.values:
+                if isinstance(x, ast.UnaryOp) and isinstance(x.op, ast.Not) and pred(x.operand):
+                    return True
+    return False
+
+
+def unalias(func_node, expr, depth=3):
+    """Source text of `expr` with every local name that is assigned exactly once (plain name = value)
+    replaced by its value."""
+    defs = {}
+    for st in ast.walk(func_node):
+        if isinstance(st, ast.Assign) and len(st.targets) == 1 and isinstance(st.targets[0], ast.Name):
+            defs.setdefault(st.targets[0].id, []).append(st.value)
+        elif isinstance(st, ast.AugAssign):
+            if isinstance(st.target, ast.Name):
+                defs.setdefault(st.target.id, []).extend([None, None])
+        elif isinstance(st, (ast.For, ast.comprehension)):
+            for n in ast.walk(st.target):
+                if isinstance(n, ast.Name):
+                    defs.setdefault(n.id, []).extend([None, None])
+        elif isinstance(st, ast.Assign):
+            for t in st.targets:
+                for n in ast.walk(t):
+                    if isinstance(n, ast.Name) and isinstance(n.ctx, ast.Store):
+                        defs.setdefault(n.id, []).extend([None, None])
+        elif isinstance(st, (ast.With,)):
+            for it in st.items:
+                if it.optional_vars is not None:
+                    for n in ast.walk(it.optional_vars):
+                        if isinstance(n, ast.Name):
+                            defs.setdefault(n.id, []).extend([None, None])
+        elif isinstance(st, ast.ExceptHandler) and st.name:
+            defs.setdefault(st.name, []).extend([None, None])
+    for a in getattr(getattr(func_node, 'args', None), 'args', []) or []:
+        defs.setdefault(a.arg, []).extend([None, None])
+    single = {k: v[0] for k, v in defs.items() if len(v) == 1 and v[0] is not None}
+
+    class Sub(ast.NodeTransformer):
+        def __init__(self, d):
+            self.d = d
+
+        def visit_Name(self, n):
+            if isinstance(n.ctx, ast.Load) and n.id in single and self.d > 0 and \
+                    not any(isinstance(x, ast.Name) and x.id == n.id for x in ast.walk(single[n.id])):
+                import copy
+                return Sub(self.d - 1).visit(copy.deepcopy(single[n.id]))
+            return n
+    import copy
+    return src_of(Sub(depth).visit(copy.deepcopy(expr)))
